@@ -3,7 +3,10 @@
 set -u
 P="$1"; shift
 cd /verif
+rm -rf /verif/work/evidence.keep; cp -r /verif/evidence /verif/work/evidence.keep
 git -C /repo apply "$P" || { echo "patch does not apply"; exit 2; }
 for c in "$@"; do ./check "$c" 2>&1 | grep -E 'VIOLATION|KNOWN|quick:' | cut -c1-220; done
 git -C /repo checkout -- .
+# evidence files must come from runs on the unchanged tree: put back what was there before the seeded run
+cp /verif/work/evidence.keep/*.json /verif/evidence/ 2>/dev/null
 git -C /repo status --short | head -3
